@@ -4,9 +4,11 @@
 -/
 import RwsDriver.Common
 import RwsDriver.Base64
+import RwsDriver.Cors
+import RwsDriver.RangeM
 open RwsDriver
 
-def allOps : List (String × Op) := base64Ops
+def allOps : List (String × Op) := base64Ops ++ corsOps ++ rangeMOps
 
 def runLine (line : String) : String :=
   match (line.trimAscii.toString.splitOn " ").filter (· ≠ "") with
